@@ -11,6 +11,7 @@ import ChessVerif.Model.Engine
 import ChessVerif.Proofs.Search
 import ChessVerif.Proofs.CliGame
 import ChessVerif.Proofs.Referee
+import ChessVerif.Proofs.Verdicts
 import ChessVerif.Proofs.Search.Depth0
 
 namespace Chess.Props.C11
@@ -156,6 +157,43 @@ theorem referee_loop_moves (fuel : Nat) (s : Bot.State) (hwf : s.board.WF = true
 
 /-- non-vacuity: with every limit expired at once the game is "White didn't move" after no move -/
 example : (Referee.game [0]).result = .didntMove true ∧ (Referee.game [0]).moves = [] := by decide +kernel
+
+/-! ### what the two game loops SAY about a game is true (`Proofs/Verdicts.lean`), whatever the clock does -/
+
+open Chess.Spec in
+/-- the command line prints "WIN" only on a checkmate by the rules -/
+theorem cli_win_truthful (fuel : Nat) (b : Board) (hwf : b.WF = true) (tf : ThreeFold) (prev : Nat) (ks : List Nat)
+    (b' : Board) (h : Cli.gameLoop fuel b tf prev ks = .ok (.win, b')) : (abs b').classify = .checkMate :=
+  Cli.gameLoop_win fuel b hwf tf prev ks b' h
+
+open Chess.Spec in
+/-- … "DRAW (NO LEGAL MOVES)" only on a stalemate by the rules -/
+theorem cli_stalemate_truthful (fuel : Nat) (b : Board) (hwf : b.WF = true) (tf : ThreeFold) (prev : Nat) (ks : List Nat)
+    (b' : Board) (h : Cli.gameLoop fuel b tf prev ks = .ok (.noLegalMoves, b')) :
+    (abs b').legalMoves = [] ∧ (abs b').inCheck b'.turn = false :=
+  Cli.gameLoop_noLegalMoves fuel b hwf tf prev ks b' h
+
+open Chess.Spec Chess.Proofs.Search in
+/-- … and "DRAW (MATERIAL)" — its word for "the search returned no move" — only when the position it was started on had no
+legal move, or when a search was cut short before its first deepening pass finished -/
+theorem cli_no_move_truthful (fuel : Nat) (b : Board) (hwf : b.WF = true) (tf : ThreeFold) (prev : Nat) (ks : List Nat)
+    (b' : Board) (h : Cli.gameLoop fuel b tf prev ks = .ok (.noMove, b')) :
+    (b' = b ∧ (abs b).legalMoves = []) ∨ ∃ k ∈ ks, ∃ tf' : ThreeFold, firstPassFinished false b' tf' k = false :=
+  Cli.gameLoop_noMove fuel b hwf tf prev ks b' h
+
+/-- the game the command line plays consists of legal moves -/
+theorem cli_game_reachable (fuel : Nat) (b : Board) (hwf : b.WF = true) (tf : ThreeFold) (prev : Nat) (ks : List Nat)
+    (o : Cli.Outcome) (b' : Board) (h : Cli.gameLoop fuel b tf prev ks = .ok (o, b')) : Board.Reachable b b' :=
+  Cli.gameLoop_reachable fuel b hwf tf prev ks o b' h
+
+open Chess.Spec in
+/-- the referee declares a draw only after a move and only for a reason: the plugin raised its threefold flag on that move
+(C15 says when it does), or the position reached is a draw by `Board::state` (C03) -/
+theorem referee_draw_truthful (ks : List Nat) (h : (Referee.game ks).result = .staleMate) :
+    (Referee.game ks).moves ≠ [] ∧
+    ((abs (Referee.game ks).a.board).classify = .staleMate ∨
+     ∃ (pre : Bot.State) (mv : Move), Bot.makeMove pre mv = ((Referee.game ks).a, ⟨true, true⟩)) :=
+  Referee.game_staleMate ks h
 
 /-! ### non-vacuity of the `pos` argument
 
